@@ -19,7 +19,7 @@ pub fn meta() -> Meta {
     Meta {
         id: "C06",
         level: "exploration",
-        rule: "forged tables through the real apply_filters+write_fasta and filter(update_kmers)+iter, compared with the row predicate of the statement: (a) every row over the 16 symbols {A,C,G,T,-,R,Y,S,W,K,M,B,D,H,V,N} for 1..3 samples and over {A,C,-,N,R,S} for 4..5 samples (thorough: all 16 symbols for 4 samples, {A,C,G,-,N,R,S,W} for 5) as a one-row table; (b) every ordered pair of 40 representative rows and every ordered triple of 12 (3 samples), both update_kmers settings, so the three parallel vectors must stay aligned under removal; (c) 6..12 samples with 'j copies of x, rest y' rows; each x 4 site filters x ambig-mask x no-gap-only-sites x filter-ambig-as-missing x every threshold 0..n (frequencies (t-1/2)/n, and additionally t/n where that product is exact in f64); plus a CLI family through `ska align` option parsing. Non-trivial = a (table, setting) pair; distinct outcomes = distinct expected column multisets.".into(),
+        rule: "forged tables through the real apply_filters+write_fasta and filter(update_kmers)+iter, compared with the row predicate of the statement: (a) every row over the 16 symbols {A,C,G,T,-,R,Y,S,W,K,M,B,D,H,V,N} for 1..3 samples and over {A,C,-,N,R,S} for 4..5 samples (thorough: all 16 symbols for 4 samples, {A,C,G,-,N,R,S,W} for 5) as a one-row table; (b) every ordered pair of 40 representative rows and every ordered triple of 12 (3 samples), both update_kmers settings, so the three parallel vectors must stay aligned under removal; (c) 6..12 samples with 'j copies of x, rest y' rows; each x 4 site filters x ambig-mask x no-gap-only-sites x filter-ambig-as-missing x every threshold 0..n (frequencies (t-1/2)/n, and additionally t/n where that product is exact in f64); plus a CLI family (each case as a k=5 file and, under 32-letter keys, as a k=33 file read through the 128-bit arm) through `ska align` option parsing. Non-trivial = a (table, setting) pair; distinct outcomes = distinct expected column multisets.".into(),
         assumptions: vec!["all-gap rows are unreachable (asserted as an invariant by C10) and excluded".into(), "thresholds use frequencies whose ceil is robust in f64 (DESIGN §4 rule 2)".into()],
         exhaustive_when_uncapped: true,
     }
@@ -33,6 +33,11 @@ fn table_of(rows: &[Vec<u8>]) -> Table {
         m.insert(String::from_utf8(nth_string(b"ACGT", 4, (i as u64 * 37 + 11) % 256)).unwrap(), r.clone());
     }
     Table { k: 5, rc: true, names: (0..n).map(|i| format!("s{i}")).collect(), rows: m }
+}
+
+/// the same rows under 32-letter keys (k = 33)
+fn wide(t: &Table) -> Table {
+    Table { k: 33, rc: true, names: t.names.clone(), rows: t.rows.iter().map(|(key, r)| (format!("{}{key}{}", "ACGTTGCAAGTCCA", "GATTACAGGTCTCA"), r.clone())).collect() }
 }
 
 pub fn all_specs(n: usize) -> Vec<FilterSpec> {
@@ -129,7 +134,9 @@ fn run_table(rep: &mut Report, t: &Table, specs: &[FilterSpec], also_update: boo
 pub fn replay(case: &Value) -> Result<Option<String>, String> {
     if case.get("cli").is_some() {
         let rows: Vec<Vec<u8>> = case["rows"].as_array().ok_or("rows")?.iter().map(|r| r.as_str().unwrap().as_bytes().to_vec()).collect();
-        return Ok(cli_one(&table_of(&rows), &spec_from(&case["spec"])).err());
+        let t = table_of(&rows);
+        let t = if case["k"].as_u64() == Some(33) { wide(&t) } else { t };
+        return Ok(cli_one(&t, &spec_from(&case["spec"])).err());
     }
     let rows: Vec<Vec<u8>> = case["rows"].as_array().ok_or("rows")?.iter().map(|r| r.as_str().unwrap().as_bytes().to_vec()).collect();
     let t = table_of(&rows);
@@ -290,6 +297,8 @@ pub fn run(ctx: &Ctx, rep: &mut Report) {
     if !capped {
         let rows: Vec<Vec<u8>> = ["AAC", "A--", "RA-", "K--", "NNC", "ACG", "AAA", "-N-"].iter().map(|s| s.as_bytes().to_vec()).collect();
         let t = table_of(&rows);
+        // the same rows under 32-letter keys: a k=33 file, read through the 128-bit arm of the command
+        let t128 = wide(&t);
         for f in all_specs(3) {
             idx += 1;
             if !ctx.mine(idx) {
@@ -298,11 +307,13 @@ pub fn run(ctx: &Ctx, rep: &mut Report) {
             if !thorough && f.thr == 2 {
                 continue;
             }
-            rep.evaluations += 1;
-            rep.nontrivial += 1;
-            rep.corner("cli_align");
-            if let Err(e) = cli_one(&t, &f) {
-                rep.violate(format!("cli rows={} spec={}", rows_json(&t), spec_json(&f)), e, json!({"cli": true, "rows": rows_json(&t), "spec": spec_json(&f)}));
+            for (width, tab) in [(64, &t), (128, &t128)] {
+                rep.evaluations += 1;
+                rep.nontrivial += 1;
+                rep.corner("cli_align");
+                if let Err(e) = cli_one(tab, &f) {
+                    rep.violate(format!("cli {width}-bit rows={} spec={}", rows_json(tab), spec_json(&f)), format!("{width}-bit file: {e}"), json!({"cli": true, "k": tab.k, "rows": rows_json(tab), "spec": spec_json(&f)}));
+                }
             }
         }
         rep.completed.push("CLI ska align".into());
